@@ -132,6 +132,18 @@ func (g *Gen) noColonHazard(d int, lambdaOK bool) ast.Expr {
 	return g.ident()
 }
 
+// elt: an element / key / value of a composite literal.
+func (g *Gen) elt(d int, lambdaOK, key bool) ast.Expr {
+	for i := 0; i < 20; i++ {
+		e := g.expr(d, lambdaOK)
+		if (EltBraceHazard(e) || key && EndsBareErrWrap(e)) && !g.R.Chance(g.Hazards) {
+			continue
+		}
+		return e
+	}
+	return g.ident()
+}
+
 func (g *Gen) expr0(d int, lambdaOK bool) ast.Expr {
 	if d <= 0 {
 		return g.leaf()
@@ -188,10 +200,12 @@ func (g *Gen) expr0(d int, lambdaOK bool) ast.Expr {
 		}
 		if g.R.Bool() {
 			for i, m := 0, g.R.Intn(3); i < m; i++ {
-				c.Elts = append(c.Elts, &ast.KeyValueExpr{Key: g.noColonHazard(d-1, false), Value: g.expr(d-1, true)})
+				c.Elts = append(c.Elts, &ast.KeyValueExpr{Key: g.elt(d-1, false, true), Value: g.elt(d-1, true, false)})
 			}
 		} else {
-			c.Elts = g.list(d-1, 0, 3, false)
+			for i, m := 0, g.R.Intn(4); i < m; i++ {
+				c.Elts = append(c.Elts, g.elt(d-1, false, false))
+			}
 		}
 		return c
 	case n < 92:
@@ -232,6 +246,47 @@ func (g *Gen) expr0(d int, lambdaOK bool) ast.Expr {
 // outside the generated domain.
 func (g *Gen) callee(d int) ast.Expr {
 	return g.expr(d, true)
+}
+
+// StartsBrace: the printed form of e starts with '{' (an untyped composite literal at the
+// left end of an unparenthesised operand chain).
+func StartsBrace(e ast.Expr) bool { return startsB(e, 0) }
+
+func startsB(e ast.Expr, prec1 int) bool {
+	if exprPrec(e) < prec1 {
+		return false // parenthesised
+	}
+	switch x := e.(type) {
+	case *ast.BinaryExpr:
+		return startsB(x.X, x.Op.Precedence())
+	case *ast.SelectorExpr:
+		return startsB(x.X, token.HighestPrec)
+	case *ast.IndexExpr:
+		return startsB(x.X, token.HighestPrec)
+	case *ast.SliceExpr:
+		return startsB(x.X, token.HighestPrec)
+	case *ast.CallExpr:
+		return startsB(x.Fun, token.HighestPrec)
+	case *ast.TypeAssertExpr:
+		return startsB(x.X, token.HighestPrec)
+	case *ast.ErrWrapExpr:
+		return startsB(x.X, token.HighestPrec)
+	case *ast.CompositeLit:
+		if x.Type == nil {
+			return true
+		}
+		return startsB(x.Type, token.HighestPrec)
+	}
+	return false
+}
+
+// EltBraceHazard: e is printed inside a composite literal (element, key or value), starts with
+// '{' and is more than the literal value itself: parseValue returns right after the '}'.
+func EltBraceHazard(e ast.Expr) bool {
+	if c, ok := e.(*ast.CompositeLit); ok && c.Type == nil {
+		return false
+	}
+	return StartsBrace(e)
 }
 
 // StartsParenOrBrace: the printed form of e starts with '(' or '{' (lowest precedence context).
